@@ -166,6 +166,9 @@ def _rhs(name, t):
         'blkscale': np.stack([b1, 1e-9 * b2], 1), 'tiny': 3e-9 * b2, 'tinyb1': 2e-10 * b1,
         # a block whose FIRST column lies in the span of b1, b2 (known after 'blk12') and whose second column is new
         'b3': _b3(b1, b2), 'blkmix': np.stack([0.7 * b1 - 1.3 * b2, _b3(b1, b2)], 1),
+        # loads of ordinary engineering size (1e4): a complex multiple of a real load, real multiples, a block
+        'ib1e4': (2 + 1j) * 1e4 * b1, 'b1e4': 1e4 * b1, '3b1e4': 3e4 * b1, 'blke4': 1e4 * np.stack([b1, b2], 1),
+        'b1b2e4': 1e4 * (b1 - 2 * b2),
     }[name].copy()
 
 
@@ -176,6 +179,7 @@ def _b3(b1, b2):
 RHS_FULL = ['b1', 'b2', '2b1', 'b1+b2', 'zero', 'bc', 'ib1', 'blk12', 'blkdep', 'blksum', 'blkz', 'col']
 RHS_SMALL = ['b1', 'b1+b2', 'bc', 'zero', 'blkdep', 'blk12']
 RHS_SCALE = ['b1', 'b2', 'blkscale', 'tiny', 'tinyb1', 'blk12']
+RHS_BIG = ['ib1e4', 'b1e4', '3b1e4', 'blke4', 'b1b2e4']
 UPD = ['same', 'vals', 'class0', 'class1']
 
 
@@ -275,8 +279,12 @@ def cause(case, seq, k, A, b, tr, flags, fresh):
         return 'initial_guess_with_nonempty_database'
     if last_upd >= 0 and before[last_upd][1].startswith('class'):
         return 'after_update_to_other_class'
-    if not np.iscomplexobj(b) and not np.iscomplexobj(A) and any(o[1] in ('bc', 'ib1') for o in since):
-        return 'real_rhs_after_complex_rhs'      # real matrix, real rhs, complex vectors in the database
+    if not np.iscomplexobj(b) and not np.iscomplexobj(A) and any(o[1] in ('bc',) for o in since):
+        return 'real_rhs_after_complex_rhs'      # real matrix, real rhs, genuinely complex vectors in the database
+    if not np.iscomplexobj(b) and not np.iscomplexobj(A) and any(o[1].startswith('ib1') for o in since):
+        # the database holds a complex MULTIPLE of a real vector: what is left of a real rhs in its span is real up to
+        # rounding, so it is reused (not the known finding)
+        return 'real_rhs_after_complex_multiple_of_real_rhs'
     if any(o[1] in ('blkdep', 'blksum') for o in since):
         return 'after_block_with_dependent_columns'
     if last_upd >= 0 and not since:
@@ -421,7 +429,7 @@ def expand(shape, rhs_names, name):
         elif s == 's':
             choices.append(solve_ops(RHS_SMALL))
         elif s == 'm':
-            choices.append(solve_ops(RHS_SCALE))
+            choices.append(solve_ops(rhs_names))      # the magnitude levels: tails over the level's own alphabet
         elif s == 'X':
             choices.append([o + [g] for o in solve_ops(rhs_names) for g in ('x0zero', 'x0prev')])
         else:
@@ -526,6 +534,10 @@ def generate(tier, seed):
         for op1 in solve_ops(RHS_SCALE):
             yield {'mat': nm, 'table': t, 'inner': 'ref', 'flags': 'none', 'prefix': [op1],
                    'tails': [['m']] if tier == 'quick' else [['m'], ['m', 'm']], 'rhs_alphabet': RHS_SCALE}
+    for nm in (names if tier != 'quick' else mag_mats):
+        for op1 in solve_ops(RHS_BIG):
+            yield {'mat': nm, 'table': t, 'inner': 'ref', 'flags': 'none', 'prefix': [op1],
+                   'tails': [['m']] if tier == 'quick' else [['m'], ['m', 'm']], 'rhs_alphabet': RHS_BIG}
     # blocks that mix a column the database already spans (first) with a new one (second), followed by one more solve
     yield {'__level__': 'depth3/mixed-blocks'}
     mix_alpha = ['blkmix', 'b3', 'b1+b2']
